@@ -46,6 +46,10 @@ class Problem(object):
     def lipschitz(self, k=1.0):
         return 1.0
 
+    def deriv4_scale(self, k=1.0):
+        """bound of |d4y/dt4| / |y| along trajectories (for the O(h^4) interpolation bound)."""
+        return self.lipschitz(k) ** 4
+
     def amplification(self, t0, t1, k=1.0):
         """sup of the sensitivity of y(t1) to a perturbation introduced at any s between t0 and t1."""
         return math.exp(self.lipschitz(k) * abs(t1 - t0))
@@ -199,6 +203,9 @@ class Logistic(Problem):
     def lipschitz(self, k=1.0):
         return abs(k) * float(np.max(np.abs(self.r64))) * 3.0
 
+    def deriv4_scale(self, k=1.0):
+        return 24.0 * (abs(k) * float(np.max(np.abs(self.r64)))) ** 4 + 1e-12
+
 
 class CosDecay(Problem):
     """elementwise y' = k a cos(w t + p) y : time dependent, closed form."""
@@ -235,6 +242,9 @@ class CosDecay(Problem):
 
     def amplification(self, t0, t1, k=1.0):
         return math.exp(2.0 * abs(k) * float(np.max(np.abs(self.a64))) / abs(self.w64))
+
+    def deriv4_scale(self, k=1.0):
+        return (abs(k) * float(np.max(np.abs(self.a64))) + abs(self.w64)) ** 4
 
 
 class SmoothNet(Problem):
